@@ -194,7 +194,8 @@ class Sampler:
             self.__calculation_values = self._gen_calculation_values()
             # Also pre-calculate continuous distribution
             self.__continuous_distribution = self._convert_to_continuous(pdist)
-        return self.__probability_distribution
+        # Return a copy so edits by the caller cannot alter the cached values
+        return dict(self.__probability_distribution)
 
     @property
     def continuous_distribution(self) -> dict:
@@ -204,7 +205,7 @@ class Sampler:
         """
         if self._check_parameter_updates():
             self.probability_distribution  # noqa: B018
-        return self.__continuous_distribution
+        return dict(self.__continuous_distribution)
 
     def sample(self) -> State:
         """
